@@ -359,6 +359,15 @@ def search_c10(rng, n, S=None, kinds=None):
         else:
             S.check(okv, f"C10:volume:{kind}", "cellvolume is not the geometric cell volume", inp, V.ravel().tolist()[:16], G.ravel().tolist()[:16])
         S.check(bool(np.all(V > 0)), f"C10:volume-positive:{kind}", "non-positive cell volume", inp, V.ravel().tolist()[:16], "> 0")
+        # the geometry must stay exact whatever the caller does with the array it was handed
+        try:
+            Vr = m.cellvolume
+            Vr /= Vr.sum()
+            V2 = np.asarray(m.cellvolume, dtype=float)
+            S.check(V2.shape == V.shape and np.array_equal(V2, V), f"C10:volume-after-edit:{kind}",
+                    "cellvolume changed after the caller modified the array returned by an earlier request", inp, V2.ravel().tolist()[:16], V.ravel().tolist()[:16])
+        except Exception as ex:
+            S.check(False, f"C10:volume-after-edit:{kind}:exception", repr(ex), inp, repr(ex), "no exception")
         if len(S.samples) < 2:
             S.samples.append(inp)
     # labels: exhaustive over classes x labels x the three location objects
@@ -904,7 +913,8 @@ def search_c01(rng, n, S=None, kinds=None):
                     if not cand:
                         continue
                     per_axes = [rng.choice(cand)]
-                    mc = periodic_mesh(rng, kind, per_axes)
+                    # periodic axes with unequal end cells conserve too (2 cases out of 3 are non-uniform)
+                    mc = periodic_mesh(rng, kind, per_axes) if rng.random() < 0.34 else rand_mesh(rng, kind, nmax=4)
                 else:
                     mc = rand_mesh(rng, kind, nmax=4)
                 conv = rng.choice(["none", "central", "upwind", "upwind+tvd"])
@@ -975,11 +985,13 @@ def search_c01(rng, n, S=None, kinds=None):
             S.check(False, f"C01:{mode}:{kind}:exception", repr(ex), {"kind": kind, "mode": mode}, repr(ex) , "no exception")
     # two species sharing one BoundaryConditions object: loading through a Dirichlet wall, then the wall is closed
     # (defaultNoFlux) and both must conserve their integrals from then on
-    for t in range(max(2, n // 20)):
+    for t in range(max(4, n // 20)):
         kind = rng.choice(["cart1", "cart2", "cyl2", "cart3"])
         try:
             mc = rand_mesh(rng, kind, nmax=3)
             bc = BoundaryConditions(mc.m)
+            if t % 2 == 0:          # the wall is opened before the variables exist (their cached terms start as Dirichlet)
+                bc.right.fixedValue(1.0)
             a = pf.CellVariable(mc.m, rand_vals(rng, mc.shape(), "pos"), bc)
             b = pf.CellVariable(mc.m, rand_vals(rng, mc.shape(), "pos"), bc)
             D = make_facevar(mc, [np.abs(x) + 0.25 for x in rand_face_arrays(rng, mc, "pos")])
